@@ -531,3 +531,65 @@ class EvpAls(Contract):
             yield 'eigentensors-pairwise-distinct-objects', z3.ForAll([j1, j2], z3.Implies(z3.And(0 <= j1, j1 < j2, j2 < zi(i)), r(j1) != r(j2)))
             yield 'eigentensors-share-nothing', z3.ForAll([j1, j2], z3.Implies(z3.And(0 <= j1, j1 < j2, j2 < zi(i)), heap.TOP(r(j1)) <= heap.BOT(r(j2))))
         return {self.K0: inv_init, self.KW: inv_while, self.KF: inv_fwd, self.KB: inv_bwd, self.KE: inv_end}.get(key)
+
+
+@register
+class PowerMethod(Contract):
+    """power_method: inverse iteration by repeated sle.als solves.  Structural clauses: every TT operation and solve is inside
+    its callee's domain, the returned eigentensor is a valid vector on the operator's column dimensions, inputs never written."""
+    name, func, file, cls = 'fn:power_method', 'power_method', FILE, None
+    props = ('C08',)
+    KEY = 'i in range(repeats)'
+    loop_ordinals = {0: KEY}
+
+    def instances(self):
+        return [{'gevp': False}, {'gevp': True}]
+
+    def defaults(self):
+        return {'operator_gevp': NONE, 'repeats': 10, 'sigma': SNum('sigma')}
+
+    def setup(self, ex, state, inst):
+        m0 = ex.ctx.mark0
+        op = mk_tt(state, 'operator', m0)
+        g0 = mk_tt(state, 'initial_guess', m0, order=op.order)
+        gv = mk_tt(state, 'operator_gevp', m0, order=op.order) if inst['gevp'] else NONE
+        return {'operator': op, 'initial_guess': g0, 'operator_gevp': gv, 'repeats': fresh('repeats'), 'sigma': SNum('sigma')}
+
+    def requires(self, S):
+        a = S.a
+        op, g0, gv = a['operator'], a['initial_guess'], a['operator_gevp']
+        d = zi(op.order)
+        yield 'orders-equal', zi(g0.order) == d
+        yield 'square-operator', square(op)
+        yield 'guess-dims', z3.And(same_ints(g0.row_dims, op.col_dims, d), FA(0, d, lambda j: lst_get(g0.col_dims, j) == 1))
+        yield 'boundary-ranks-1', z3.And(boundary_one(op), boundary_one(g0))
+        if isinstance(gv, STT):
+            yield 'operator_gevp-like-operator', gevp_like(gv, op)
+        yield 'repeats>=0', zi(a['repeats']) >= 0
+        jx = fresh('jx')
+        yield 'state-dimension>=2', z3.Exists([jx], z3.And(0 <= jx, jx < d, lst_get(op.row_dims, jx) >= 2))
+
+    def vec_ok(self, t, op):
+        d = zi(op.order)
+        return z3.And(zi(t.order) == d, valid(t), same_ints(t.row_dims, op.col_dims, d), FA(0, d, lambda j: lst_get(t.col_dims, j) == 1), boundary_one(t))
+
+    def ensures(self, S, res):
+        ok = isinstance(res, tuple) and len(res) == 2 and isinstance(res[1], STT)
+        yield 'returns-(eigenvalue, eigentensor)', ok
+        if ok:
+            yield 'eigentensor', self.vec_ok(res[1], S.o['operator'])
+
+    def canary(self, S, res):
+        return zi(res[1].order) == zi(S.o['operator'].order) + 1 if isinstance(res, tuple) and isinstance(res[1], STT) else None
+
+    def invariant(self, key, inst):
+        me = self
+        if key != self.KEY:
+            return None
+
+        def inv(V, i, k):
+            yield 'eigentensor', me.vec_ok(V['eigentensor'], V.old('operator'))
+            sh, op = V['operator_shift'], V.old('operator')
+            d = zi(op.order)
+            yield 'operator_shift', z3.And(zi(sh.order) == d, valid(sh), same_ints(sh.row_dims, op.row_dims, d), same_ints(sh.col_dims, op.col_dims, d), boundary_one(sh))
+        return inv
